@@ -6,6 +6,7 @@ import (
 	"flag"
 	"fmt"
 	"os"
+	"sort"
 	"time"
 
 	"verifharness/cmd/c15/dec"
@@ -26,6 +27,20 @@ func main() {
 	fmt.Fprintf(os.Stderr, "%.1fs evaluations=%d\n", time.Since(t0).Seconds(), rep.Evaluations)
 	for _, k := range hlib.SortedKeys(rep.Distribution) {
 		fmt.Printf("%-60s %d\n", k, rep.Distribution[k])
+	}
+	type kt struct {
+		k string
+		t time.Duration
+	}
+	var ts []kt
+	for k, t := range dec.Times {
+		ts = append(ts, kt{k, t})
+	}
+	sort.Slice(ts, func(i, j int) bool { return ts[i].t > ts[j].t })
+	for i, x := range ts {
+		if i < 25 {
+			fmt.Printf("TIME %-55s %8.2fs %d calls\n", x.k, x.t.Seconds(), rep.Distribution["entry:"+x.k])
+		}
 	}
 	for _, w := range dec.Warnings {
 		fmt.Println("WARN", w)
